@@ -305,6 +305,345 @@ theorem recase_allCi (e : Env) (p : Pat) : ∀ (ch : Choice), (recase e ch p).al
   | exprCond c yes no ihc ihy ihn => intro ch; simp only [recase, Pat.allCi, ihc, ihy, ihn]
   | _ => intro ch; rfl
 
+/-! ## `recase` covers every leaf-by-leaf re-casing -/
+
+/-- `c'` is `c` or its simple case partner -/
+def RuneRecased (e : Env) (c c' : Nat) : Prop := c' = c ∨ e.partner c = some c'
+
+inductive RangesRecased (e : Env) : List (Nat × Nat) → List (Nat × Nat) → Prop
+  | nil : RangesRecased e [] []
+  | cons {lo hi lo' hi' : Nat} {rs rs' : List (Nat × Nat)} :
+      RuneRecased e lo lo' → RuneRecased e hi hi' → RangesRecased e rs rs' →
+      RangesRecased e ((lo, hi) :: rs) ((lo', hi') :: rs')
+
+inductive ClsRecased (e : Env) : Cls → Cls → Prop
+  | base (neg : Bool) (ns : List (Nat × Bool)) {rs rs' : List (Nat × Nat)} :
+      RangesRecased e rs rs' → ClsRecased e (.base neg rs ns) (.base neg rs' ns)
+  | diff {a a' b b' : Cls} : ClsRecased e a a' → ClsRecased e b b' → ClsRecased e (.diff a b) (.diff a' b')
+
+inductive PredRecased (e : Env) : Pred → Pred → Prop
+  | one {c c' : Nat} : RuneRecased e c c' → PredRecased e (.one c true) (.one c' true)
+  | notone {c c' : Nat} : RuneRecased e c c' → PredRecased e (.notone c true) (.notone c' true)
+  | set {cls cls' : Cls} : ClsRecased e cls cls' → PredRecased e (.set cls true) (.set cls' true)
+  | same (p : Pred) : PredRecased e p p
+
+/-- **`p'` is a re-casing of `p`**, stated without a choice function: same shape, and every letter of
+    a case-insensitive test — literal, negated literal, each range endpoint of a class — is, each
+    occurrence on its own, the original rune or its simple case partner -/
+inductive Recased (e : Env) : Pat → Pat → Prop
+  | empty : Recased e .empty .empty
+  | nothing : Recased e .nothing .nothing
+  | chr {p p' : Pred} : PredRecased e p p' → Recased e (.chr p) (.chr p')
+  | anchor (a : Anchor) : Recased e (.anchor a) (.anchor a)
+  | seq {a a' b b' : Pat} : Recased e a a' → Recased e b b' → Recased e (.seq a b) (.seq a' b')
+  | alt {a a' b b' : Pat} : Recased e a a' → Recased e b b' → Recased e (.alt a b) (.alt a' b')
+  | quant (lzy : Bool) (lo : Nat) (hi : Option Nat) {b b' : Pat} :
+      Recased e b b' → Recased e (.quant lzy lo hi b) (.quant lzy lo hi b')
+  | cap (g : Nat) {b b' : Pat} : Recased e b b' → Recased e (.cap g b) (.cap g b')
+  | look (behind neg : Bool) {b b' : Pat} : Recased e b b' → Recased e (.look behind neg b) (.look behind neg b')
+  | atomic {b b' : Pat} : Recased e b b' → Recased e (.atomic b) (.atomic b')
+  | ref (g : Nat) (ci : Bool) : Recased e (.ref g ci) (.ref g ci)
+  | refCond (g : Nat) {y y' n n' : Pat} :
+      Recased e y y' → Recased e n n' → Recased e (.refCond g y n) (.refCond g y' n')
+  | exprCond {c c' y y' n n' : Pat} :
+      Recased e c c' → Recased e y y' → Recased e n n' → Recased e (.exprCond c y n) (.exprCond c' y' n')
+
+theorem recaseRune_recased (e : Env) (b : Bool) (c : Nat) : RuneRecased e c (recaseRune e b c) := by
+  unfold recaseRune RuneRecased
+  cases b with
+  | false => exact Or.inl rfl
+  | true =>
+    simp only [if_true]
+    cases h : e.partner c with
+    | none => exact Or.inl rfl
+    | some q => exact Or.inr rfl
+
+theorem RuneRecased.bit {e : Env} {c c' : Nat} (h : RuneRecased e c c') : ∃ b, c' = recaseRune e b c := by
+  rcases h with h | h
+  · exact ⟨false, h⟩
+  · exact ⟨true, by simp [recaseRune, h]⟩
+
+/-- choice functions glued from the choice functions of the children -/
+def Choice.join (f : Nat → Choice) : Choice
+  | [] => false
+  | i :: path => f i path
+
+theorem Choice.join_sub (f : Nat → Choice) (i : Nat) : (Choice.join f).sub i = f i := rfl
+
+theorem recaseRanges_recased (e : Env) (ch : Choice) (rs : List (Nat × Nat)) :
+    ∀ i, RangesRecased e rs (recaseRanges e ch i rs) := by
+  induction rs with
+  | nil => intro i; exact .nil
+  | cons p rs ih =>
+    intro i
+    obtain ⟨lo, hi⟩ := p
+    exact .cons (recaseRune_recased ..) (recaseRune_recased ..) (ih (i + 1))
+
+theorem recaseRanges_congr (e : Env) (ch ch' : Choice) (rs : List (Nat × Nat)) :
+    ∀ i, (∀ j k, i ≤ j → ch [j, k] = ch' [j, k]) → recaseRanges e ch i rs = recaseRanges e ch' i rs := by
+  induction rs with
+  | nil => intro i _; rfl
+  | cons p rs ih =>
+    intro i h
+    obtain ⟨lo, hi⟩ := p
+    simp only [recaseRanges]
+    rw [h i 0 (Nat.le_refl _), h i 1 (Nat.le_refl _), ih (i + 1) (fun j k hj => h j k (by omega))]
+
+theorem RangesRecased.choice {e : Env} {rs rs' : List (Nat × Nat)} (h : RangesRecased e rs rs') :
+    ∀ i, ∃ ch : Choice, rs' = recaseRanges e ch i rs := by
+  induction h with
+  | nil => intro i; exact ⟨fun _ => false, rfl⟩
+  | @cons lo hi lo' hi' rs rs' hlo hhi _ ih =>
+    intro i
+    obtain ⟨ch', hch'⟩ := ih (i + 1)
+    obtain ⟨b0, hb0⟩ := hlo.bit
+    obtain ⟨b1, hb1⟩ := hhi.bit
+    refine ⟨fun path => if path = [i, 0] then b0 else if path = [i, 1] then b1 else ch' path, ?_⟩
+    simp only [recaseRanges]
+    rw [recaseRanges_congr e _ ch' rs (i + 1) (by
+      intro j k hj
+      have h0 : ¬ ([j, k] = [i, 0]) := by simp; omega
+      have h1 : ¬ ([j, k] = [i, 1]) := by simp; omega
+      simp only [h0, h1, if_false])]
+    simp [← hch', ← hb0, ← hb1]
+
+theorem recaseCls_recased (e : Env) (c : Cls) : ∀ ch : Choice, ClsRecased e c (recaseCls e ch c) := by
+  induction c with
+  | base neg rs ns => intro ch; exact .base neg ns (recaseRanges_recased e ch rs 0)
+  | diff a b iha ihb => intro ch; exact .diff (iha _) (ihb _)
+
+theorem ClsRecased.choice {e : Env} {c c' : Cls} (h : ClsRecased e c c') : ∃ ch : Choice, c' = recaseCls e ch c := by
+  induction h with
+  | base neg ns hr =>
+    obtain ⟨ch, hch⟩ := hr.choice 0
+    exact ⟨ch, by simp only [recaseCls, hch]⟩
+  | diff _ _ iha ihb =>
+    obtain ⟨cha, ha⟩ := iha
+    obtain ⟨chb, hb⟩ := ihb
+    refine ⟨Choice.join (fun i => if i = 0 then cha else chb), ?_⟩
+    simp only [recaseCls, Choice.join_sub]
+    simp [← ha, ← hb]
+
+theorem recasePred_recased (e : Env) (ch : Choice) (p : Pred) : PredRecased e p (recasePred e ch p) := by
+  cases p with
+  | one c ci =>
+    cases ci with
+    | false => exact .same _
+    | true => exact .one (recaseRune_recased ..)
+  | notone c ci =>
+    cases ci with
+    | false => exact .same _
+    | true => exact .notone (recaseRune_recased ..)
+  | set cls ci =>
+    cases ci with
+    | false => exact .same _
+    | true => exact .set (recaseCls_recased e cls ch)
+
+/-- the choice function that re-cases nothing -/
+def Choice.none : Choice := fun _ => false
+
+theorem Choice.none_sub (i : Nat) : Choice.none.sub i = Choice.none := rfl
+
+theorem recaseRanges_none (e : Env) (rs : List (Nat × Nat)) : ∀ i, recaseRanges e Choice.none i rs = rs := by
+  induction rs with
+  | nil => intro i; rfl
+  | cons p rs ih =>
+    intro i
+    obtain ⟨lo, hi⟩ := p
+    simp only [recaseRanges, ih (i + 1)]
+    rfl
+
+theorem recaseCls_none (e : Env) (c : Cls) : recaseCls e Choice.none c = c := by
+  induction c with
+  | base neg rs ns => simp only [recaseCls, recaseRanges_none]
+  | diff a b iha ihb => simp only [recaseCls, Choice.none_sub, iha, ihb]
+
+theorem recasePred_none (e : Env) (p : Pred) : recasePred e Choice.none p = p := by
+  cases p with
+  | one c ci => cases ci <;> rfl
+  | notone c ci => cases ci <;> rfl
+  | set cls ci =>
+    cases ci with
+    | false => rfl
+    | true => simp only [recasePred, recaseCls_none]
+
+theorem PredRecased.choice {e : Env} {p p' : Pred} (h : PredRecased e p p') : ∃ ch : Choice, p' = recasePred e ch p := by
+  cases h with
+  | one hc =>
+    obtain ⟨b, hb⟩ := hc.bit
+    exact ⟨fun _ => b, by simp only [recasePred, hb]⟩
+  | notone hc =>
+    obtain ⟨b, hb⟩ := hc.bit
+    exact ⟨fun _ => b, by simp only [recasePred, hb]⟩
+  | set hc =>
+    obtain ⟨ch, hch⟩ := hc.choice
+    exact ⟨ch, by simp only [recasePred, hch]⟩
+  | same p => exact ⟨Choice.none, (recasePred_none e p).symm⟩
+
+theorem recase_recased (e : Env) (p : Pat) : ∀ ch : Choice, Recased e p (recase e ch p) := by
+  induction p with
+  | empty => intro ch; exact .empty
+  | nothing => intro ch; exact .nothing
+  | chr p => intro ch; exact .chr (recasePred_recased e ch p)
+  | anchor a => intro ch; exact .anchor a
+  | seq a b iha ihb => intro ch; exact .seq (iha _) (ihb _)
+  | alt a b iha ihb => intro ch; exact .alt (iha _) (ihb _)
+  | quant lzy lo hi body ih => intro ch; exact .quant lzy lo hi (ih _)
+  | cap g body ih => intro ch; exact .cap g (ih _)
+  | look behind neg body ih => intro ch; exact .look behind neg (ih _)
+  | atomic body ih => intro ch; exact .atomic (ih _)
+  | ref g ci => intro ch; exact .ref g ci
+  | refCond g yes no ihy ihn => intro ch; exact .refCond g (ihy _) (ihn _)
+  | exprCond c yes no ihc ihy ihn => intro ch; exact .exprCond (ihc _) (ihy _) (ihn _)
+
+theorem Recased.choice {e : Env} {p p' : Pat} (h : Recased e p p') : ∃ ch : Choice, p' = recase e ch p := by
+  induction h with
+  | empty => exact ⟨Choice.none, rfl⟩
+  | nothing => exact ⟨Choice.none, rfl⟩
+  | chr hp =>
+    obtain ⟨ch, hch⟩ := hp.choice
+    exact ⟨ch, by simp only [recase, hch]⟩
+  | anchor a => exact ⟨Choice.none, rfl⟩
+  | seq _ _ iha ihb =>
+    obtain ⟨cha, ha⟩ := iha
+    obtain ⟨chb, hb⟩ := ihb
+    refine ⟨Choice.join (fun i => if i = 0 then cha else chb), ?_⟩
+    simp only [recase, Choice.join_sub]
+    simp [← ha, ← hb]
+  | alt _ _ iha ihb =>
+    obtain ⟨cha, ha⟩ := iha
+    obtain ⟨chb, hb⟩ := ihb
+    refine ⟨Choice.join (fun i => if i = 0 then cha else chb), ?_⟩
+    simp only [recase, Choice.join_sub]
+    simp [← ha, ← hb]
+  | quant lzy lo hi _ ih =>
+    obtain ⟨ch, hch⟩ := ih
+    exact ⟨Choice.join (fun _ => ch), by simp only [recase, Choice.join_sub, ← hch]⟩
+  | cap g _ ih =>
+    obtain ⟨ch, hch⟩ := ih
+    exact ⟨Choice.join (fun _ => ch), by simp only [recase, Choice.join_sub, ← hch]⟩
+  | look behind neg _ ih =>
+    obtain ⟨ch, hch⟩ := ih
+    exact ⟨Choice.join (fun _ => ch), by simp only [recase, Choice.join_sub, ← hch]⟩
+  | atomic _ ih =>
+    obtain ⟨ch, hch⟩ := ih
+    exact ⟨Choice.join (fun _ => ch), by simp only [recase, Choice.join_sub, ← hch]⟩
+  | ref g ci => exact ⟨Choice.none, rfl⟩
+  | refCond g _ _ ihy ihn =>
+    obtain ⟨cha, ha⟩ := ihy
+    obtain ⟨chb, hb⟩ := ihn
+    refine ⟨Choice.join (fun i => if i = 0 then cha else chb), ?_⟩
+    simp only [recase, Choice.join_sub]
+    simp [← ha, ← hb]
+  | exprCond _ _ _ ihc ihy ihn =>
+    obtain ⟨chc, hc⟩ := ihc
+    obtain ⟨cha, ha⟩ := ihy
+    obtain ⟨chb, hb⟩ := ihn
+    refine ⟨Choice.join (fun i => if i = 0 then chc else if i = 1 then cha else chb), ?_⟩
+    simp only [recase, Choice.join_sub]
+    simp [← hc, ← ha, ← hb]
+
+/-- **`recase` covers exactly the leaf-by-leaf re-casings** -/
+theorem recased_iff_recase' (e : Env) (p p' : Pat) : Recased e p p' ↔ ∃ ch : Choice, p' = recase e ch p :=
+  ⟨Recased.choice, fun ⟨ch, h⟩ => h ▸ recase_recased e p ch⟩
+
+/-! ## literals and single class members need no table condition -/
+
+/-- the two endpoint bits of every range agree: ranges are re-cased as a whole or not at all -/
+def Choice.Paired (ch : Choice) : Prop := ∀ (pre : List Nat) (i : Nat), ch (pre ++ [i, 0]) = ch (pre ++ [i, 1])
+
+theorem Choice.Paired.sub {ch : Choice} (h : ch.Paired) (k : Nat) : (ch.sub k).Paired :=
+  fun pre i => h (k :: pre) i
+
+/-- every range of every ci class is a single member `(c, c)` -/
+def Cls.onlyMembers : Cls → Bool
+  | .base _ rs _ => rs.all (fun p => p.1 == p.2)
+  | .diff a b => a.onlyMembers && b.onlyMembers
+
+def Pred.onlyMembers : Pred → Bool
+  | .set cls true => cls.onlyMembers
+  | _ => true
+
+def Pat.onlyMembers : Pat → Bool
+  | .empty => true
+  | .nothing => true
+  | .chr p => p.onlyMembers
+  | .anchor _ => true
+  | .seq a b => a.onlyMembers && b.onlyMembers
+  | .alt a b => a.onlyMembers && b.onlyMembers
+  | .quant _ _ _ body => body.onlyMembers
+  | .cap _ body => body.onlyMembers
+  | .look _ _ body => body.onlyMembers
+  | .atomic body => body.onlyMembers
+  | .ref _ _ => true
+  | .refCond _ yes no => yes.onlyMembers && no.onlyMembers
+  | .exprCond c yes no => c.onlyMembers && yes.onlyMembers && no.onlyMembers
+
+theorem rangeOK_member {e : Env} (hf : FoldOK e) (b : Bool) (c : Nat) :
+    rangeOK e (c, c) (recaseRune e b c, recaseRune e b c) = true := by
+  unfold rangeOK
+  rw [rangeCiEq_single hf (recaseRune_eqCi e b c)]
+  exact Bool.or_true _
+
+theorem rangesOK_members {e : Env} (hf : FoldOK e) {ch : Choice} (hch : ch.Paired) (rs : List (Nat × Nat))
+    (h : rs.all (fun p => p.1 == p.2) = true) : ∀ i, rangesOK e ch i rs = true := by
+  induction rs with
+  | nil => intro i; rfl
+  | cons p rs ih =>
+    intro i
+    obtain ⟨lo, hi⟩ := p
+    simp only [List.all_cons, Bool.and_eq_true, beq_iff_eq] at h
+    obtain ⟨h1, h2⟩ := h
+    subst h1
+    have hb : ch [i, 0] = ch [i, 1] := hch [] i
+    simp only [rangesOK, hb, rangeOK_member hf, ih h2 (i + 1), Bool.and_self]
+
+theorem clsOK_members {e : Env} (hf : FoldOK e) (c : Cls) :
+    ∀ {ch : Choice}, ch.Paired → c.onlyMembers = true → clsOK e ch c = true := by
+  induction c with
+  | base neg rs ns => intro ch hch h; exact rangesOK_members hf hch rs h 0
+  | diff a b iha ihb =>
+    intro ch hch h
+    simp only [Cls.onlyMembers, Bool.and_eq_true] at h
+    simp only [clsOK, iha (hch.sub 0) h.1, ihb (hch.sub 1) h.2, Bool.and_self]
+
+theorem recaseOK_members {e : Env} (hf : FoldOK e) (p : Pat) :
+    ∀ {ch : Choice}, ch.Paired → p.onlyMembers = true → recaseOK e ch p = true := by
+  induction p with
+  | empty => intro ch _ _; rfl
+  | nothing => intro ch _ _; rfl
+  | chr p =>
+    intro ch hch h
+    cases p with
+    | one c ci => rfl
+    | notone c ci => rfl
+    | set cls ci =>
+      cases ci with
+      | false => rfl
+      | true => exact clsOK_members hf cls hch h
+  | anchor a => intro ch _ _; rfl
+  | seq a b iha ihb =>
+    intro ch hch h
+    simp only [Pat.onlyMembers, Bool.and_eq_true] at h
+    simp only [recaseOK, iha (hch.sub 0) h.1, ihb (hch.sub 1) h.2, Bool.and_self]
+  | alt a b iha ihb =>
+    intro ch hch h
+    simp only [Pat.onlyMembers, Bool.and_eq_true] at h
+    simp only [recaseOK, iha (hch.sub 0) h.1, ihb (hch.sub 1) h.2, Bool.and_self]
+  | quant lzy lo hi body ih => intro ch hch h; exact ih (hch.sub 0) h
+  | cap g body ih => intro ch hch h; exact ih (hch.sub 0) h
+  | look behind neg body ih => intro ch hch h; exact ih (hch.sub 0) h
+  | atomic body ih => intro ch hch h; exact ih (hch.sub 0) h
+  | ref g ci => intro ch _ _; rfl
+  | refCond g yes no ihy ihn =>
+    intro ch hch h
+    simp only [Pat.onlyMembers, Bool.and_eq_true] at h
+    simp only [recaseOK, ihy (hch.sub 0) h.1, ihn (hch.sub 1) h.2, Bool.and_self]
+  | exprCond c yes no ihc ihy ihn =>
+    intro ch hch h
+    simp only [Pat.onlyMembers, Bool.and_eq_true] at h
+    simp only [recaseOK, ihc (hch.sub 0) h.1.1, ihy (hch.sub 1) h.1.2, ihn (hch.sub 2) h.2, Bool.and_self]
+
 end RegexVerif.Spec
 
 /-! ## a concrete instance for the non-vacuity examples: letters a/A b/B c/C x/X -/
